@@ -29,7 +29,7 @@ BASE_FAILS = {"test/test_array_function.py::test_count_nonzero[numpoly]", "test/
 
 # file (relative to /repo) -> properties whose quick checks are run on a surviving mutant
 PROPS = {
-    "numpoly/baseclass.py": ["C01", "C03", "C08", "C13", "C20", "C02"],
+    "numpoly/baseclass.py": ["C01", "C03", "C12", "C13", "C02", "C10", "C11", "C08", "C20"],
     "numpoly/align.py": ["C04", "C01", "C17"],
     "numpoly/dispatch.py": ["C08", "C01"],
     "numpoly/option.py": ["C14", "C15"],
